@@ -2,6 +2,7 @@ package main
 
 import (
 	"bytes"
+	"context"
 	"os"
 	"path/filepath"
 	"strings"
@@ -197,9 +198,13 @@ func runCaseR(m *Model, c Case) ([]Diff, string) {
 		t := parseTreeEnc(c.Tree)
 		var vs []string
 		var ierr error
-		seq := gtree.WalkIterFromRoot(buildRoot(t), fmtOpts(c.Fmt)...)
+		io := fmtOpts(c.Fmt)
+		if c.Massive {
+			io = append(io, gtree.WithMassive(context.Background())) // ignored by the iterator form (it always walks in simple mode)
+		}
+		seq := gtree.WalkIterFromRoot(buildRoot(t), io...)
 		if c.Alias {
-			seq = gtree.WalkIterProgrammably(buildRoot(t), fmtOpts(c.Fmt)...)
+			seq = gtree.WalkIterProgrammably(buildRoot(t), io...)
 		}
 		for wn, err := range seq {
 			if err != nil {
